@@ -700,12 +700,10 @@ impl<'a, 'b, R: FileManager> TypeModuleWalker<'a, R, AddressedQualifiedType>
                 anchor,
                 DiagnosticInfoMessage::CannotUseInterfaceInQualifiedTypePosition,
             ),
-            SymbolExport::ValueExpr { .. } => {
-                unreachable!("we use get_type which filters these out")
-            }
-            SymbolExport::ExprDecl { .. } => {
-                unreachable!("we use get_type which filters these out")
-            }
+            // get_type filters these out, except for a default export (`export { v as default }`)
+            SymbolExport::ValueExpr { .. } | SymbolExport::ExprDecl { .. } => self
+                .ctx
+                .error(anchor, DiagnosticInfoMessage::CannotUseValueInTypePosition),
         }
     }
 
@@ -1028,10 +1026,13 @@ impl<'a, 'b, R: FileManager> ValueModuleWalker<'a, R, AddressedQualifiedValue>
             SymbolExport::StarOfOtherFile { reference } => {
                 self.get_addressed_item_from_import_reference(reference.as_ref(), anchor)
             }
-            SymbolExport::TsType { .. } => unreachable!("we use get_value wich filters these out"),
-            SymbolExport::TsInterfaceDecl { .. } => {
-                unreachable!("we use get_value wich filters these out")
-            }
+            // get_value filters these out, except for a default export (`export { T as default }`)
+            SymbolExport::TsType { .. } => self
+                .ctx
+                .error(anchor, DiagnosticInfoMessage::CannotUseTypeInValuePosition),
+            SymbolExport::TsInterfaceDecl { .. } => self
+                .ctx
+                .error(anchor, DiagnosticInfoMessage::CannotUseInterfaceInValuePosition),
             SymbolExport::TsEnumDecl {
                 decl,
                 original_file,
